@@ -625,8 +625,11 @@ def tie_steps(model, case, jr, its, lims_json, mism, tags, max_report=3):
                 mm("step:stop-vs-append", "%s: model stops (%s), code appended x=%s" % (where, r.get("why"), X[k + 1].tolist()))
                 break
             # integer arithmetic is exact in doubles; with an explicit ODE term (x + pure*tau) the float is only close
+            # (beyond 2^53 a double no longer holds every integer: a leap of ~1e17 events - the adaptive step of the known
+            # finding C04-unbounded-adaptive-tau just below numpy's Poisson limit - is compared to rounding, not exactly)
             integral = bool(np.all(np.mod(X[k + 1], 1) == 0) and np.all(np.mod(x, 1) == 0)
-                            and not np.any(np.ravel(it.get("pure", 0.0))))
+                            and not np.any(np.ravel(it.get("pure", 0.0)))
+                            and max(float(np.abs(X[k + 1]).max()), float(np.abs(x).max())) < 2.0 ** 53)
             if not same_vec(r["x"], X[k + 1], None if integral else 1e-9):
                 mm("step:post-state", "%s: model x=%s code x=%s" % (where, [float(Fraction(v)) for v in r["x"]], X[k + 1].tolist()))
             if not close(Fraction(r["t"]), T[k + 1]):
@@ -1010,6 +1013,8 @@ def oracle_c04(model, case, X, J, T, exact, finalT, truncated, its, lims, evalua
             if not exact and case.get("has_ode") and not retried:
                 exp = exp + np.asarray(pure(X[k], T[k]), float).ravel() * (T[k + 1] - T[k])
                 ok = np.allclose(X[k + 1], exp, rtol=1e-9, atol=1e-9)
+            elif max(float(np.abs(X[k + 1]).max()), float(np.abs(X[k]).max()), float(np.abs(Jf[k]).max())) >= 2.0 ** 53:
+                ok = np.allclose(X[k + 1], exp, rtol=1e-12, atol=0.0)      # integers beyond 2^53 are not exact in doubles
             else:
                 ok = np.array_equal(X[k + 1], exp)
             if not ok:
